@@ -389,6 +389,15 @@ def envRegionExpected : List (String × List String × List String) := [
 def envRegionOk (r : Paloma.Gen.Nondet.EnvRegion) : Bool :=
   envRegionExpected.any fun e => e.1 == r.fn && e.2.1 == r.errorReturns && e.2.2 == r.keeperCalls
 
+/-- process-local state ("in-memory caches surviving from earlier blocks or queries, node restarts"):
+    the only package-level variables any function other than `init` writes are the two subscriber tables
+    of the event bus, and the only functions that change a subscriber table are the two keeper
+    constructors, which run once per `app.New` with constant keys (so a restarted node and a node that
+    never restarted hold the same table); `Publish` iterates the table in sorted key order
+    (map range `util/eventbus.Event.Publish`, shape collect-then-sort). -/
+def writtenGlobalsExpected : List String := ["util/eventbus.evmActivatedChain", "util/eventbus.skywayBatchBuilt"]
+def eventBusSubscriptionsExpected : List String := ["x/evm/keeper.NewKeeper#Subscribe", "x/skyway/keeper.NewKeeper#Subscribe"]
+
 def randJustified : List String :=
   ["x/skyway/types.NonemptyEthAddress", "x/skyway/types.NonemptySdkAccAddress", "x/skyway/types.NonzeroSdkInt", "x/skyway/types.NonzeroUint64"]
 
@@ -405,8 +414,9 @@ individually justified above; the only environment reads are the two justified o
 such a read the function has exactly the listed error returns and keeper calls (a new way to fail
 or to touch state behind the feature flag makes this fail); there is no wall-clock read and no use of the process-local time zone
 (`time.Unix`, `.Local()`, `time.LoadLocation` …); randomness occurs only in the listed test
-helpers; and the relayer assigner has a value receiver, so its per-call score cache cannot
-survive into another call. A new unsorted map range, environment read, `time.Now` or `rand`
+helpers; the relayer assigner has a value receiver, so its per-call score cache cannot
+survive into another call; and the only package-level variables written at run time are the event
+bus's two subscriber tables, changed by the two keeper constructors only. A new unsorted map range, environment read, `time.Now` or `rand`
 use on a consensus path makes this `decide` fail. -/
 theorem nondeterminism_inventory_covered :
     (Paloma.Gen.Nondet.mapRanges.all mapRangeOk &&
@@ -414,6 +424,8 @@ theorem nondeterminism_inventory_covered :
      Paloma.Gen.Nondet.envReads.all (fun s => envJustified.any (fun j => j.1 == s.fn)) &&
      Paloma.Gen.Nondet.envRegions.all envRegionOk &&
      Paloma.Gen.Nondet.envRegions.length == Paloma.Gen.Nondet.envReads.length &&
+     Paloma.Gen.Nondet.writtenGlobals.map (·.name) == writtenGlobalsExpected &&
+     Paloma.Gen.Nondet.eventBusSubscriptions == eventBusSubscriptionsExpected &&
      Paloma.Gen.Nondet.clockReads.isEmpty &&
      Paloma.Gen.Nondet.localZoneUses.isEmpty &&
      Paloma.Gen.Nondet.randomUses.all (fun s => randJustified.contains s.fn) &&
